@@ -363,7 +363,18 @@ def normal_cases(rng, out, n):
         npar = rng.choice([1, 2, 3])
         params = ['a', 'b', 'c'][:npar]
         covs = [rng.choice([1e-6, 0.25, 1.0, 9.0, 1e4]) for _ in params]
-        prop = P.Normal(params, cov=covs)
+        cls = rng.choice(['Normal', 'Normal', 'AdaptiveNormal', 'SSAdaptiveNormal', 'ATAdaptiveNormal'])
+        if cls == 'Normal':
+            prop = P.Normal(params, cov=covs)
+        elif cls == 'AdaptiveNormal':
+            prop = P.AdaptiveNormal(params, {p: rng.choice([2.0, 8.0]) for p in params}, adaptation_duration=20)
+        elif cls == 'SSAdaptiveNormal':
+            prop = P.SSAdaptiveNormal(params, cov=[min(c, 9.0) for c in covs])
+        else:
+            prop = P.ATAdaptiveNormal(params, adaptation_duration=20, diagonal=True)
+        # any internal state: adapted, reset (with no update after it), scale reassigned
+        perturb_state(prop, rng, out)
+        out.count('normal_' + cls)
         stds = [float(s) for s in prop._std]
         for _ in range(4):
             g = {p: rng.uniform(-5, 5) for p in params}
@@ -550,7 +561,7 @@ def birth_cases(rng, out, n):
 def all_cases(rng, out, scale=1, extreme=False):
     terms, metas = [], []
     for f, a in ((discrete_cases, dict(n=6 * scale, bounded=False, extreme=extreme)), (discrete_cases, dict(n=8 * scale, bounded=True, extreme=extreme)),
-                 (bounded_normal_cases, dict(n=6 * scale, extreme=extreme)), (normal_cases, dict(n=3 * scale)),
+                 (bounded_normal_cases, dict(n=6 * scale, extreme=extreme)), (normal_cases, dict(n=12 * scale)),
                  (angular_cases, dict(n=5 * scale, extreme=extreme)), (eigen_cases, dict(n=5 * scale)),
                  (vmf_cases, dict(n=4 * scale, extreme=extreme)), (birth_cases, dict(n=6 * scale))):
         t, m = f(rng, out, **a)
